@@ -1,6 +1,6 @@
 //! C17 shell-tool oracle: rip_tools::register_builtin_tools + ToolRunner::run("bash" / "shell").
 
-use super::emit::{bucket, gen_plan, lossy, Plan};
+use super::emit::{bucket, gen_plan, gen_tails, lossy, tails_shape, wait_all_over, Journals, Plan, Tail, TailTruth};
 use super::pages::{judge_random, judge_walk, page_sizes, Page};
 use crate::fixture::{scratch_root, sha256_hex};
 use crate::prng::Rng;
@@ -36,7 +36,12 @@ pub struct ShellCase {
     pub page_seed: u64,
     pub starve: bool,
     pub force_page: Option<usize>,
+    /// descendants of the child that keep the pipes open after it (`cmd &` style background writers)
+    pub tails: Vec<Tail>,
 }
+
+/// Clock slack when a journal time stamp (descendant) is compared with a frame time stamp.
+const STAMP_SLACK_MS: u64 = 20;
 
 impl ShellCase {
     pub fn limit(&self) -> usize {
@@ -51,6 +56,7 @@ impl ShellCase {
             "writes": self.plan.ops.len(), "exit": self.plan.exit, "shape": self.plan.shape,
             "starve_blocking_pool": self.starve,
             "stdout_head_hex": hex::encode(&self.plan.out[..self.plan.out.len().min(24)]),
+            "descendants": self.tails.iter().map(|t| t.describe()).collect::<Vec<_>>(),
         })
     }
 }
@@ -68,6 +74,8 @@ pub fn gen_case(cfg: &Cfg, rng: &mut Rng, idx: u64) -> ShellCase {
         1 => ShClass::SpawnFail(rng.below(3) as u8),
         _ => ShClass::Normal,
     };
+    let mut trng = Rng::derive(rng.clone().next_u64(), 0x7A11);
+    let tails = if class == ShClass::Normal && trng.chance(1, 90) { gen_tails(&mut trng) } else { Vec::new() };
     ShellCase {
         idx,
         label: "random".into(),
@@ -83,6 +91,7 @@ pub fn gen_case(cfg: &Cfg, rng: &mut Rng, idx: u64) -> ShellCase {
         page_seed: rng.next_u64(),
         starve: false,
         force_page: None,
+        tails,
     }
 }
 
@@ -123,7 +132,13 @@ pub async fn run_case(r: &mut Report, case: &ShellCase) -> Option<Outcome> {
     register_builtin_tools(&registry, config.clone());
     let runner = ToolRunner::new(registry, 4);
 
-    let (command, _) = case.plan.command(&dir, "shell", false);
+    let has_tails = !case.tails.is_empty();
+    let (command, journals): (String, Option<Journals>) = if has_tails {
+        let (c, _, j) = case.plan.command_with_tails(&dir, "shell", false, &case.tails);
+        (c, Some(j))
+    } else {
+        (case.plan.command(&dir, "shell", false).0, None)
+    };
     let mut args = json!({"command": command});
     if let Some(l) = case.arg_limit {
         args["max_bytes"] = json!(l);
@@ -188,6 +203,19 @@ pub async fn run_case(r: &mut Report, case: &ShellCase) -> Option<Outcome> {
         ended.as_ref()?["artifacts"][sname]["artifact"]["id"].as_str().map(|id| ws.join(".rip/artifacts/blobs").join(id))
     };
     let early: Vec<Option<Vec<u8>>> = ["stdout", "stderr"].iter().map(|s| blob_path(s).and_then(|p| std::fs::read(p).ok())).collect();
+    // Pipe lifetime ≠ process lifetime: judge what is left once the last descendant that held a pipe is
+    // gone (whatever a detached reader would still do has been done by then).
+    if let Some(j) = &journals {
+        let longest = case.tails.iter().map(|t| t.life_ms()).max().unwrap_or(0) + case.plan.linger_ms;
+        let l = wait_all_over(j, Duration::from_millis(longest + 4000)).await;
+        if !l.all_over {
+            stop.store(true, Ordering::Relaxed);
+            r.inconclusive(&format!("case {}: descendants still alive {} ms after the tool returned", case.idx, longest + 4000));
+            return None;
+        }
+        tokio::time::sleep(Duration::from_millis(150)).await;
+        r.count("descendants_started", l.tails_spawned as u64);
+    }
     stop.store(true, Ordering::Relaxed);
     for h in starvers {
         let _ = h.await;
@@ -255,8 +283,15 @@ pub async fn run_case(r: &mut Report, case: &ShellCase) -> Option<Outcome> {
     }
 
     let limit = case.limit();
+    // ground truth with descendants: child's bytes, then the writing descendant's, per stream
+    let tt = TailTruth::build(&case.plan, &case.tails, journals.as_ref());
+    let t_end = ended["timestamp_ms"].as_u64().unwrap_or(0);
+    if has_tails {
+        shape.push_str(&format!("|{}", tails_shape(&case.tails)));
+        r.count("descendant_cases_judged_shell", 1);
+    }
     for (k, sname) in ["stdout", "stderr"].iter().enumerate() {
-        let truth_b = case.plan.stream(sname);
+        let truth_full: &[u8] = &tt.full[k];
         let a = &ended["artifacts"][*sname];
         let w = |extra: Value| json!({"case": wit, "stream": sname, "capture": a, "detail": extra});
         if !a["error"].is_null() {
@@ -266,13 +301,24 @@ pub async fn run_case(r: &mut Report, case: &ShellCase) -> Option<Outcome> {
         let total = a["bytes_total"].as_u64().unwrap_or(u64::MAX);
         let bprev = a["bytes_preview"].as_u64().unwrap_or(u64::MAX);
         let truncated = a["truncated"].as_bool().unwrap_or(false);
-        if total != truth_b.len() as u64 {
+        // Without descendants: everything the child wrote. With descendants: everything written up to
+        // the tool_ended frame (bounds from the writers' own journals).
+        let (lo, hi) = if has_tails && t_end > 0 { tt.bounds(k, t_end, STAMP_SLACK_MS) } else { (truth_full.len() as u64, truth_full.len() as u64) };
+        if total < lo || total > hi {
             r.violation(
                 "C17/shell/bytes_total_differs_from_written",
-                &format!("{sname}: child wrote {} bytes, bytes_total says {total}", truth_b.len()),
+                &if has_tails {
+                    format!("{sname}: child and descendants wrote between {lo} and {hi} bytes up to the tool_ended frame, bytes_total says {total}")
+                } else {
+                    format!("{sname}: child wrote {} bytes, bytes_total says {total}", truth_full.len())
+                },
                 w(json!(null)),
             );
             return None;
+        }
+        let truth_b: &[u8] = &truth_full[..(total as usize).min(truth_full.len())];
+        if has_tails {
+            r.count(if total == truth_full.len() as u64 { "descendant_streams_captured_whole" } else { "descendant_streams_captured_up_to_tool_ended" }, 1);
         }
         if bprev > limit as u64 || bprev > total {
             r.violation(
